@@ -147,7 +147,16 @@ func (fr *FnRun) defaultLoopSpec(li *loopInfo) *LoopSpec {
 
 // havocAll forgets the whole heap: every object is re-materialised with fresh names.
 func (fr *FnRun) havocAll(st *State) {
+	// the call counters are ghost state of the verifier, not memory the code can write: they survive
+	// (counters of calls made inside a loop are made unknown separately, see loopCallCounters)
+	var keep Val
+	if fr.callsObj != nil {
+		keep = st.heap[fr.callsObj]
+	}
 	st.heap = map[*Obj]Val{}
+	if keep != nil {
+		st.heap[fr.callsObj] = keep
+	}
 	st.epoch = fr.ex.fresh("ep")
 	st.stale = nil
 }
